@@ -2,6 +2,8 @@ import CssVerif.Lemmas.Normalize
 import CssVerif.Lemmas.SheetSpecNoC
 import CssVerif.Lemmas.SheetSpecEx
 import CssVerif.Gen.C02Margins
+import CssVerif.Gen.C02Validate
+import CssVerif.Model.ParseCfg
 /-!
 # C02 — the parsed DOM is the same for every way of writing a well-formed sheet
 
@@ -134,11 +136,14 @@ theorem media_block_local (O : Oracle) (M : List Cps) (hO : AtFaithful O) (ns : 
       parseLoop (mediaStep O ns (fun l => mediaRule O ns f l)) (acc ++ rs.parsed O ns) x :=
   mediaLoop_rules O M hO ns rs h f acc x hf
 
-/-! ## T2.3 comments off
+/-! ## T2.3 the two parser options: comments off, validation off
 
-`validate_irrelevant` has no counterpart here: the structure kernel has no `validate` parameter at all (the code
-only logs and annotates when validating), so that clause is decided on the implementation by the oracle
-(tools/harness/c02.py, `validate-off`). -/
+`validate` (`CSSParser(validate=…)`) is read on the parse path at two places, both of which only emit log records;
+`Model/ParseCfg.lean` therefore has the flag decide about the validation records only.  That premise is not an
+assumption of the theorems: `flag_reads_harmless` / `flag_guards` / `validate_body_pure` evaluate the table that
+`tools/harness/c02_validate.py` regenerates from the AST of the whole package on every run (every read of
+`validating` / `_validating` / `_isValidating()` / the parameter that carries the option, with what it guards), and
+the correspondence parses every generated sheet with validation off as well. -/
 
 /-- the tokenizer with `doComments=False` on the text of `s` gives the tokens of the sheet without comments -/
 theorem comments_off_tokens (s : SSheet) : strip (render s) = render s.noC := strip_render s
@@ -150,6 +155,99 @@ as they are written without their comments). -/
 theorem comments_off (O : Oracle) (M : List Cps) (hO : AtFaithful O) (s : SSheet) (h : s.noC.WF O M) :
     projSheet O M (parseSheet O M (strip (render s))) = eraseCRules s.erase := by
   rw [strip_render, parse_render O M hO s.noC h, SSheet.noC_erase]
+
+/-! ### comments off at declaration level
+
+`CSSStyleDeclaration.cssText = tokens` / `Property.cssText = tokens` on the tokens a tokenizer with
+`doComments=False` produces (the block of a style rule of a sheet parsed with `parseComments=False`, or a style
+attribute given token by token). -/
+
+/-- the tokenizer with `doComments=False` on the text of a declaration / of a block -/
+theorem comments_off_decl_tokens (d : SDecl) : strip d.toks = d.noC.toks := strip_sdecl d
+theorem comments_off_block_tokens (b : SBlock) : strip b.toks = b.noC.toks := strip_block b
+
+/-- **T2.3 at declaration level.**  A comment anywhere inside a declaration — between name and `:`, inside or
+around the value, around `!` and the priority ident — is spelling: without the COMMENT tokens `Property` builds the
+same abstract declaration (name, value, priority). -/
+theorem comments_off_decl (O : Oracle) (d : SDecl) (h : d.noC.WF O) :
+    (parseProperty O (strip d.toks)).bind (fun x => projItem (.decl x)) = some d.erase := by
+  rw [strip_sdecl, parseProperty_sdecl O d.noC h]
+  simp only [Option.bind_some, projItem_parsed O d.noC h, SDecl.noC_erase]
+
+/-- **T2.3 at block level.**  Without the COMMENT tokens `CSSStyleDeclaration` builds exactly the items of the
+block without its comment items (declarations, unknown at-rules with their inner comments removed), in order. -/
+theorem comments_off_block (O : Oracle) (b : SBlock) (h : b.noC.WF O) :
+    projItems (parseDecls O (strip b.toks)) = eraseCItems b.erase := by
+  rw [strip_block, block_recovered O b.noC h, SBlock.noC_erase]
+
+/-- hence: comments off = comments on, minus the comment items -/
+theorem comments_on_off_block (O : Oracle) (b : SBlock) (h : b.WF O) (hn : b.noC.WF O) :
+    projItems (parseDecls O (strip b.toks)) = eraseCItems (projItems (parseDecls O b.toks)) := by
+  rw [comments_off_block O b hn, block_recovered O b h]
+
+/-- non-vacuity: a declaration with comments in every gap and inside its value; a block with comment items -/
+example : Ex2.dCm.noC.WF Ex2.O := Ex2.dCm_noC_wf _ Ex2.yes_value
+example : Ex2.blkCm.noC.WF Ex2.O := Ex2.blkCm_noC_wf _ Ex2.yes_value
+example : projItems (parseDecls Ex2.O (strip Ex2.blkCm.toks)) = eraseCItems Ex2.blkCm.erase :=
+  comments_off_block _ _ (Ex2.blkCm_noC_wf _ Ex2.yes_value)
+/-- a test, not a theorem: the comment-free parse of the example block has 2 items, the block itself 4 -/
+example : (projItems (parseDecls Ex2.O (strip Ex2.blkCm.toks))).length = 2 ∧ Ex2.blkCm.erase.length = 4 := by
+  decide +kernel
+
+/-! ### validation off -/
+section Validate
+open CssVerif.ParseCfg
+
+/-- **T2.3 validate_irrelevant.**  Switching validation on or off changes nothing in what the parser builds: for
+every configuration, every token list (well formed or not), every oracle and every validation-record function the
+rules are the same. -/
+theorem validate_irrelevant (cfg : Cfg) (b : Bool) (V : List Rule → List Msg) (O : Oracle) (M : List Cps)
+    (ts : List Tok) :
+    (parseWith { cfg with validate := b } V O M ts).1 = (parseWith cfg V O M ts).1 := rfl
+
+/-- with validation off there are no validation records at all -/
+theorem validate_off_silent (cfg : Cfg) (V : List Rule → List Msg) (O : Oracle) (M : List Cps) (ts : List Tok) :
+    (parseWith { cfg with validate := false } V O M ts).2 = [] := rfl
+
+/-- the premise of `Model/ParseCfg.lean`, on the table regenerated from the source of this run: every read of the
+flag either hands it on or guards statements that only log -/
+theorem flag_reads_harmless : CssVerif.Gen.C02.flagSites.all siteHarmless = true := by decide
+
+/-- … the guards are the two of `property.py` that the model describes (`Property._setCssText`: the call of
+`validate()` whose result is dropped; `Property._setName`: the warning about an unknown name) -/
+theorem flag_guards : guards CssVerif.Gen.C02.flagSites =
+    [("cssutils/css/property.py", "Property._setCssText"), ("cssutils/css/property.py", "Property._setName")] := by
+  rfl
+
+/-- … and `Property.validate` stores nothing outside its locals, never raises, and logs with `neverraise=True` -/
+theorem validate_body_pure : CssVerif.Gen.C02.validateBody = (0, 0, 0) := by decide
+
+/-- **T2.2 + T2.3 in one statement.**  For every spelled sheet, under every configuration of the parser the DOM
+projection of what is built from the tokens the tokenizer hands over is the abstract sheet — without its comments
+when comment parsing is off — whatever the `validate` flag says. -/
+theorem parse_render_cfg (O : Oracle) (M : List Cps) (hO : AtFaithful O) (s : SSheet) (cfg : Cfg)
+    (V : List Rule → List Msg) (h : cfg.parseComments = true → s.WF O M)
+    (hn : cfg.parseComments = false → s.noC.WF O M) :
+    projSheet O M (parseWith cfg V O M (render s)).1 =
+      if cfg.parseComments then s.erase else eraseCRules s.erase := by
+  cases hc : cfg.parseComments with
+  | true => simp only [parseWith, tokensFor, hc, ↓reduceIte]; exact parse_render O M hO s (h hc)
+  | false =>
+    simp only [parseWith, tokensFor, hc, Bool.false_eq_true, ↓reduceIte]
+    exact comments_off O M hO s (hn hc)
+
+/-- non-vacuity: the example sheet with comments on, a sheet with comments in every kind of place with comments off,
+validation on or off -/
+example (b : Bool) (V : List Rule → List Msg) :
+    projSheet Ex2.O Ex2.M (parseWith ⟨true, b⟩ V Ex2.O Ex2.M (render Ex2.sheet)).1 = Ex2.sheet.erase :=
+  parse_render_cfg _ _ (withAtRules_faithful _) _ ⟨true, b⟩ V (fun _ => Ex2.sheet_wf) (fun h => by simp at h)
+example (b : Bool) (V : List Rule → List Msg) :
+    projSheet Ex2.O Ex2.M (parseWith ⟨false, b⟩ V Ex2.O Ex2.M (render Ex2.sheetCm)).1 =
+      eraseCRules Ex2.sheetCm.erase :=
+  parse_render_cfg _ _ (withAtRules_faithful _) _ ⟨false, b⟩ V (fun h => by simp at h) (fun _ => Ex2.sheetCm_noC_wf)
+/-- the hypothesis of `comments_off` is satisfiable -/
+example : Ex2.sheetCm.noC.WF Ex2.O Ex2.M := Ex2.sheetCm_noC_wf
+end Validate
 
 /-! ## non-vacuity
 
